@@ -640,6 +640,13 @@ def _generate(rng, tier):
     for kind, n in (("nop", 48), ("mss", 12), ("ws", 15), ("sackp", 22), ("ts", 5), ("sack", 5)):
         for i in range(1, n + 1):
             yield elems_case([relem(rng, kind) for _ in range(i)])
+    # more than 40 ELEMENTS (not only more than 40 bytes): mostly Noop with a few larger ones, so that the number of
+    # elements and the number of bytes they need differ
+    for n in list(range(38, 64)) + [80, 120]:
+        for _ in range(3 if quick else 20):
+            es = [("nop",)] * n + [relem(rng, rng.choice(["mss", "ws", "sackp", "ts", "sack"])) for _ in range(rng.choice([1, 1, 2, 3]))]
+            rng.shuffle(es)
+            yield elems_case(es)
     per_size = 40 if quick else 600
     for target in range(0, 49):
         for _ in range(per_size):
